@@ -15,3 +15,9 @@ package types
 
 //@ func (sk StakingKeeper).RemoveUnbondingDelegation(ctx, ubd) (err)
 //@ trusted
+
+// Unbond removes shares from a delegation and returns the tokens taken out of the validator; it moves no coins.
+//@ func (sk StakingKeeper).Unbond(ctx, delAddr, valAddr, shares) (amount, err)
+//@ trusted
+//@ modifies staking.*
+//@ ensures [amount_non_negative] err == nil ==> amount >= 0
